@@ -7,19 +7,36 @@ TRUSTED = [
     "specification: G1 = Spec/Curve.lean, G2 = Spec/CurveX.lean over Fp2, GT = generic tower spec for Fp12 (Spec/Tower.lean: schoolbook polynomial "
     "arithmetic modulo the tower's defining polynomials); membership is decided by definition (on the curve, not the identity, r*P = O; a != 1, "
     "a^r = 1), exponentiation by square-and-multiply in the specification; all constants are read from the running library (pc_param) and checked",
-    "class C: every g1_/g2_ multiplication and gt_ exponentiation variant is compared with the specification per line (the loops shared with "
-    "ep_mul_* are covered by the abstract-group theorems of C03; the cyclotomic / GLS / Frobenius-based recodings are not modelled)",
+    "class A (Model/PcValid.lean executed by Driver/C12V.lean on every pcv line, model column): the decision logic of g1_is_valid / g2_is_valid / "
+    "gt_is_valid for embedding degree 12 — identity / zero exits, cofactor-1 shortcut, EP_B12 and EP_BN endomorphism / Frobenius relations, B12_383 "
+    "shortcut, default order check, fp12_test_cyc — with the constants the running library reports (h1, beta of ep_psi, ep2_frb constants, sparse "
+    "form and sign of the parameter, EP_ENDOM compiled in or not). Inside the model g*_mul_any, the group law, ep2_frb / fp12_frb and "
+    "fp12_exp_cyc_sps are evaluated by the specification arithmetic resp. Model/PpExp (those routines are class A in C03 / C11 / C04 / C10)",
+    "class A (dispatch): g1_mul / g2_mul (one-digit path with negation vs. reduction mod n and ep_mul / ep2_mul), g*_mul_gen (reduction mod n), "
+    "_any, _dig, _fix, _sim, _sim_gen and g1_mul_sec are executed through the models of the routine the macro of include/relic_pc.h expands to "
+    "(Driver/C03.modelMul / modelSim, Driver/C11.modelMul / modelSim; needs the ep_param / ep2_param context lines of the same curve, otherwise "
+    "the line is tagged classC). An identity base of the _fix variant is the recorded finding F33 and is left to the specification column",
+    "class C (specification column only): g2_mul_sec (ep2_mul_lwreg is not modelled), every gt_exp variant (gt_exp, _sec, _dig, _gen, _sim: "
+    "gt_exp_gls_naf / gt_exp_reg_gls and the cyclotomic digit exponentiation are not modelled)",
+    "theorems (Lemmas/PcValid.lean): cofactor-1 test, B12 G1 test and B12 G2 test accept exactly the non-zero elements killed by r over an "
+    "abstract commutative group with endomorphism, under explicit hypotheses (characteristic equation of psi on the group, eigenvalue on the "
+    "r-torsion, r = z^4 - z^2 + 1 resp. gcd(z^2 - t z + p, group order) | r); BN G2: reduction to the coded relation and completeness only; B12 GT test (fp12_test_cyc and a^p = a^z) over an abstract commutative "
+    "group with Frobenius. NOT proved: soundness of the BN G2 relation, the BN GT relation (Dai et al.); of the hypotheses only r = z^4-z^2+1, the gcd condition and the characteristic equations at the "
+    "generators are re-checked on the reported constants (pc_param line, B12) — the per-line specification column (definition: on the curve, killed by r) is what judges those",
     "theorems (Props/C12.lean): the membership predicate 'a^r = 1' already implies membership in the cyclotomic subgroup (unique subgroup of order "
     "r in a cyclic group), so the specification predicate equals the property's predicate; exponentiation by k depends on k mod r only",
 ]
 ASSUMPTIONS = ["gt_exp* have a contract on target-group elements only: for field elements outside the group the cyclotomic routines are not "
                "claimed (lines tagged gte.outside are not judged)"]
+EXTRA_THEOREM_MODULES = ["RelicVerif.Lemmas.PcValid"]
 RULE = ("both pairing-friendly curves: subgroup elements, twist points outside the subgroup, off-curve coordinates, identity, field elements "
         "outside the cyclotomic subgroup, cyclotomic elements of order not dividing r; scalars of every class of C03; every variant by name; "
         "non-trivial = distinct line with a non-error result")
 
 IDS = {"base": [23, 24]}
 GM = ["mul", "sec", "any", "gen", "dig", "fix", "mul!", "sec!", "dig!"]
+# the boundary of the one-digit path of g1_mul / g2_mul (bn_bits(k) <= RLC_DIG), both signs
+EDGE = [0, 1, -1, 2, -3, 0xffff, (1 << 63), -(1 << 63), (1 << 64) - 1, -((1 << 64) - 1), 1 << 64, -(1 << 64), (1 << 64) + 1, -((1 << 64) + 1)]
 GTE = ["exp", "sec", "dig", "gen", "sim", "exp!", "sec!", "dig!"]
 
 
@@ -29,6 +46,18 @@ def gen_lines(rng, ex, cid, st, count):
     pool1 = [cv1.mul(cv1.g, rng.bits(256) % st.n) for _ in range(4)] + [cv1.g]
     pool2 = [cv2.mul(cv2.g, rng.bits(256) % st.n) for _ in range(3)] + [cv2.g]
     outside = pg.outside_g2(ex, cid, rng, 4)
+    # points of E(Fp) found from x (for a cofactor != 1 almost surely OUTSIDE the subgroup: the endomorphism-based test of
+    # g1_is_valid must reject them), and their cofactor-cleared multiples are not needed: pool1 is inside
+    out1 = []
+    if st.p % 4 == 3:
+        a1, b1 = int(st.kv["a1"], 16), int(st.kv["b1"], 16)
+        x = rng.bits(200)
+        while len(out1) < 4:
+            x += 1
+            rhs = (x * x * x + a1 * x + b1) % st.p
+            y = pow(rhs, (st.p + 1) // 4, st.p)
+            if y * y % st.p == rhs:
+                out1.append((x % st.p, y if rng.chance(1, 2) else (st.p - y) % st.p))
     valid, cyc, rnd, pre = pg.gt_elements(ex, cid, rng, st, 4)
     out += pre
     one = "1," + ",".join(["0"] * 11)
@@ -63,9 +92,11 @@ def gen_lines(rng, ex, cid, st, count):
     for _ in range(count):
         k = rng.below(100)
         if k < 10:
-            P = rng.choice(pool1 + [None])
+            P = rng.choice(pool1 + out1 + [None])
             j = rng.below(4)
-            if P is not None and j == 0:
+            if P in out1:
+                pass
+            elif P is not None and j == 0:
                 P = (P[0], (P[1] + 1) % st.p)           # off the curve
             elif P is not None and j == 1:
                 P = ((P[0] + 1) % st.p, P[1])
@@ -89,12 +120,16 @@ def gen_lines(rng, ex, cid, st, count):
         elif k < 52:
             v = rng.choice(GM)
             kk = c03.scalar(rng, st.n)
+            if v.startswith("mul") and rng.chance(1, 2):
+                kk = rng.choice(EDGE)
             if v.startswith("dig"):
                 kk = abs(kk) & ((1 << 64) - 1)
             out.append("g1m %s %s %s" % (v, t1(rng.choice(pool1 + [None]), v), hx(kk)))
         elif k < 66:
             v = rng.choice(GM)
             kk = c03.scalar(rng, st.n)
+            if v.startswith("mul") and rng.chance(1, 2):
+                kk = rng.choice(EDGE)
             if v.startswith("dig"):
                 kk = abs(kk) & ((1 << 64) - 1)
             out.append("g2m %s %s %s" % (v, t2(rng.choice(pool2 + [None]), v), hx(kk)))
@@ -143,6 +178,7 @@ def _stream(ctx, cfg, per):
             continue
         st = pg.Setting(kv)
         lines.append("pc_param %d" % cid)
+        lines.append("ep_param %d" % cid)
         lines.append("ep2_param %d" % cid)
         lines.append("pc_param %d" % cid)
         lines += gen_lines(ctx.rng, ex, cid, st, per)
